@@ -274,6 +274,8 @@ def install(ex):
             return
         if c is UNDEF:
             ex.violation('mem', 'uninit-use', 'oracle on uninitialised value: ' + ex.cstr(a[1]))
+        st.symbranches += 0
+        st.sym_oracles += 1
         cond = c if isinstance(c, BoolRef) else boolword_cond(ex, c)
         conj = cond.children() if z3.is_and(cond) else [cond]
         first = True
